@@ -210,11 +210,15 @@ pub fn gen_c04(sh: &mut Shards, o: &Opts) -> serde_json::Value {
         let img = &px[at..at + w * h];
         emit_io(sh, "xyb", "", w, h, img, &[("out", xyb_of(img, w, h))], false);
     }
-    let (w, h, big, idx) = big_unit(&mut rng, 0.0, 4.0);
-    emit_io_probe(sh, "xyb", "", w, h, &big, &[("out", xyb_of(&big, w, h))], &idx, false);
+    let (w, h, big, mut idx) = big_unit(&mut rng, 0.0, 4.0);
+    let whole = xyb_of(&big, w, h);
+    crate::util::screen_idx(&mut idx, &whole, &big, &xyb_of);
+    emit_io_probe(sh, "xyb", "", w, h, &big, &[("out", whole)], &idx, false);
     for (hw, hh) in huge_shapes(o, 0) {
-        let (w, h, big, idx) = big_unit_wh(&mut rng, 0.0, 4.0, hw, hh);
-        emit_io_probe(sh, "xyb", "", w, h, &big, &[("out", xyb_of(&big, w, h))], &idx, false);
+        let (w, h, big, mut idx) = big_unit_wh(&mut rng, 0.0, 4.0, hw, hh);
+        let whole = xyb_of(&big, w, h);
+        crate::util::screen_idx(&mut idx, &whole, &big, &xyb_of);
+        emit_io_probe(sh, "xyb", "", w, h, &big, &[("out", whole)], &idx, false);
     }
     let echo = echo_image(&lattice(4, 0.0, 1.0), |p| xyb_of(p, 1, 1));
     for (at, w, h) in cut_images(echo.len(), 5) {
@@ -248,14 +252,16 @@ pub fn gen_c05(sh: &mut Shards, o: &Opts) -> serde_json::Value {
         let back = mid.clone().and_then(|m| lin_of_xyb(&m, w, h));
         emit_io(sh, "xybrt", "", w, h, img, &[("mid", mid), ("back", back)], false);
     }
-    let (w, h, big, idx) = big_unit(&mut rng, 0.0, 1.0);
+    let (w, h, big, mut idx) = big_unit(&mut rng, 0.0, 1.0);
     let mid = xyb_of(&big, w, h);
     let back = mid.clone().and_then(|m| lin_of_xyb(&m, w, h));
+    crate::util::screen_idx(&mut idx, &back, &big, &|c, cw, ch| xyb_of(c, cw, ch).and_then(|m| lin_of_xyb(&m, cw, ch)));
     emit_io_probe(sh, "xybrt", "", w, h, &big, &[("mid", mid), ("back", back)], &idx, false);
     for (hw, hh) in huge_shapes(o, 1) {
-        let (w, h, big, idx) = big_unit_wh(&mut rng, 0.0, 1.0, hw, hh);
+        let (w, h, big, mut idx) = big_unit_wh(&mut rng, 0.0, 1.0, hw, hh);
         let mid = xyb_of(&big, w, h);
         let back = mid.clone().and_then(|m| lin_of_xyb(&m, w, h));
+        crate::util::screen_idx(&mut idx, &back, &big, &|c, cw, ch| xyb_of(c, cw, ch).and_then(|m| lin_of_xyb(&m, cw, ch)));
         emit_io_probe(sh, "xybrt", "", w, h, &big, &[("mid", mid), ("back", back)], &idx, false);
     }
     // echo: p followed by (xyb(p) clamped into the unit cube) and repeats
@@ -348,11 +354,13 @@ pub fn gen_c06(sh: &mut Shards, o: &Opts) -> serde_json::Value {
     for (k, &c) in [9u8, 4, 10, 12, 22].iter().enumerate() {
         for (hw, hh) in huge_shapes(o, 2 + k).into_iter().take(if o.thorough { 4 } else if k < 2 { 2 } else { 0 }).skip(0) {
             let mut rng = Rng::new(o.seed, 0x0606_b170 + u64::from(c));
-            let (w, h, big, idx) = big_unit_wh(&mut rng, -0.5, 2.0, hw, hh);
+            let (w, h, big, mut idx) = big_unit_wh(&mut rng, -0.5, 2.0, hw, hh);
             let a = prim_to709(c, &big, w, h);
+            crate::util::screen_idx(&mut idx, &a, &big, &|q, cw, ch| prim_to709(c, q, cw, ch));
             let back = a.clone().and_then(|m| prim_from709(c, &m, w, h));
             emit_io_probe(sh, "prim", &format!("\"cp\":{c},\"dir\":\"to709\","), w, h, &big, &[("out", a), ("back", back)], &idx, true);
             let a = prim_from709(c, &big, w, h);
+            crate::util::screen_idx(&mut idx, &a, &big, &|q, cw, ch| prim_from709(c, q, cw, ch));
             let back = a.clone().and_then(|m| prim_to709(c, &m, w, h));
             emit_io_probe(sh, "prim", &format!("\"cp\":{c},\"dir\":\"from709\","), w, h, &big, &[("out", a), ("back", back)], &idx, true);
             n += 2 * (w * h) as u64;
@@ -360,11 +368,13 @@ pub fn gen_c06(sh: &mut Shards, o: &Opts) -> serde_json::Value {
     }
     for &c in &[9u8, 4, 10] {
         let mut rng = Rng::new(o.seed, 0x0606_b160 + u64::from(c));
-        let (w, h, big, idx) = big_unit(&mut rng, -0.5, 2.0);
+        let (w, h, big, mut idx) = big_unit(&mut rng, -0.5, 2.0);
         let a = prim_to709(c, &big, w, h);
+        crate::util::screen_idx(&mut idx, &a, &big, &|q, cw, ch| prim_to709(c, q, cw, ch));
         let back = a.clone().and_then(|m| prim_from709(c, &m, w, h));
         emit_io_probe(sh, "prim", &format!("\"cp\":{c},\"dir\":\"to709\","), w, h, &big, &[("out", a), ("back", back)], &idx, true);
         let a = prim_from709(c, &big, w, h);
+        crate::util::screen_idx(&mut idx, &a, &big, &|q, cw, ch| prim_from709(c, q, cw, ch));
         let back = a.clone().and_then(|m| prim_to709(c, &m, w, h));
         emit_io_probe(sh, "prim", &format!("\"cp\":{c},\"dir\":\"from709\","), w, h, &big, &[("out", a), ("back", back)], &idx, true);
         n += 2 * (w * h) as u64;
@@ -464,15 +474,19 @@ pub fn gen_c17(sh: &mut Shards, o: &Opts) -> serde_json::Value {
         emit_io(sh, "hsl", "", w, h, img, &[("out", mid), ("back", back)], false);
     }
     for (hw, hh) in huge_shapes(o, 3) {
-        let (w, h, big, idx) = big_unit_wh(&mut rng, 0.0, 1.0, hw, hh);
+        let (w, h, big, mut idx) = big_unit_wh(&mut rng, 0.0, 1.0, hw, hh);
         let mid = hsl_of(&big, w, h);
+        crate::util::screen_idx(&mut idx, &mid, &big, &hsl_of);
         let back = mid.clone().and_then(|m| lin_of_hsl(&m, w, h));
+        crate::util::screen_idx(&mut idx, &back, &big, &|c, cw, ch| hsl_of(c, cw, ch).and_then(|m| lin_of_hsl(&m, cw, ch)));
         emit_io_probe(sh, "hsl", "", w, h, &big, &[("out", mid), ("back", back)], &idx, false);
     }
     {
-        let (w, h, big, idx) = big_unit(&mut rng, 0.0, 1.0);
+        let (w, h, big, mut idx) = big_unit(&mut rng, 0.0, 1.0);
         let mid = hsl_of(&big, w, h);
+        crate::util::screen_idx(&mut idx, &mid, &big, &hsl_of);
         let back = mid.clone().and_then(|m| lin_of_hsl(&m, w, h));
+        crate::util::screen_idx(&mut idx, &back, &big, &|c, cw, ch| hsl_of(c, cw, ch).and_then(|m| lin_of_hsl(&m, cw, ch)));
         emit_io_probe(sh, "hsl", "", w, h, &big, &[("out", mid), ("back", back)], &idx, false);
         // echo: a pixel followed by the pixel that equals its own HSL result (possible when H = 0: greys and pure reds)
         let mut src: Vec<[f32; 3]> = Vec::new();
